@@ -6,7 +6,28 @@ STORE_ASSUMPTIONS = [
     "what is on disk is defined as what the real constructors recover from a copy of the directory",
 ]
 
+SIM_ASSUMPTIONS = [
+    "the real node code runs unmodified inside a testing/synctest bubble (Go 1.26.8): time is virtual, the harness owns message delivery, loss, duplication, delay, partitions, crashes and restarts; interleavings inside one reaction are left to the Go scheduler (GOMAXPROCS=1)",
+    "storage is the bundled file-backed implementation behind recording wrappers; a crash is a process crash at an instant between two storage calls (directory image taken at that instant), not a power failure",
+    "verdicts are taken from the recorded history by oracles that are pure functions of it; replay re-executes the saved script best-effort",
+    "exploration only: absence of a violation in the generated schedules is not a proof",
+]
+
+
+def sim(test, quick, thorough, **kw):
+    d = {"test": "Test" + test, "corpus_test": "TestCorpus" + test, "level": "exploration", "engine": "E-SIM", "gomaxprocs": 1,
+         "tiers": {"quick": {"shards": 16, "cases": quick, "timeout_s": 1500}, "thorough": {"shards": 16, "cases": thorough, "timeout_s": 10800}},
+         "assumptions": SIM_ASSUMPTIONS}
+    d.update(kw)
+    return d
+
+
 PROPS = {
+    "C01": sim("C01", 1500, 40000),
+    "C02": sim("C02", 1000, 30000),
+    "C03": sim("C03", 1500, 40000),
+    "C04": sim("C04", 800, 20000),
+    "C07": sim("C07", 1000, 30000),
     "C12": {
         "test": "TestC12", "corpus_test": "TestCorpusC12", "level": "fault_enumeration",
         "engine": "E-STORE",
@@ -22,7 +43,17 @@ HOOK_COMMITS = []
 
 NOT_CLAIMED = {}
 
+def simtext(what, trusted="the simulator (network, virtual clock, crash images), the recording wrappers and the oracle are the trusted base; the schedule space is sampled, not covered"):
+    return {"technique": "property-based testing: rapid-generated fault schedules on a virtual-time cluster simulator, invariant oracle over the recorded history",
+            "level_text": what, "level_note": trusted}
+
+
 MANIFEST_TEXT = {
+    "C01": simtext("Randomised, pattern-biased exploration of message orders, losses, duplicates, late replies, partitions, crashes (arbitrary instants and storage boundaries) and restarts on real nodes in virtual time; every application and every reported commit index is checked against a global index->(term,bytes) table after every step. Finds divergence when a generated schedule produces it; says nothing about schedules not generated."),
+    "C02": simtext("Same simulator with election-centred patterns (scheduler-owned delivery of every vote message, duelling candidates, flaky links, crashes at term/vote writes); per-term uniqueness of leaders is checked on Status() at every quiescence point and on every AppendEntries/InstallSnapshot request sent."),
+    "C03": simtext("Concurrent generated clients against the simulator; the invoke/return history is checked against the authoritative applied order (bytes, position, result, at-most-once, real-time order). Exploration of histories, not a proof of linearizability for all histories."),
+    "C04": simtext("Schedules with kills immediately before/after generated storage operations, all-node crashes and majority-only restarts; at every first application and acknowledgement each voter's on-disk log (crash image for dead nodes) is read back through the real constructors and a strict majority must hold the entry; recovered logs must equal what was stored."),
+    "C07": simtext("Schedules biased to elections between differing logs; at the first sign of leadership of each (node, term) the node's stored log is compared with the set of entries ever observed committed or applied; truncations of committed entries are flagged at any time."),
     "C12": {
         "technique": "model-based property test (rapid state machine) with crash-image enumeration",
         "level_text": "Generated op sequences against an in-memory reference model; for every mutating call every crash image derived from the observed file delta (quick: boundary-biased byte cuts; thorough: every byte cut for sequences up to 12 ops) is reopened with the real constructors and compared through the whole read API, then probed with append+reopen; sequences continue from crash images. Bounded enumeration of crash points per generated sequence, not a proof over all sequences.",
